@@ -36,6 +36,19 @@ func lexPath(addr ssa.Value) string {
 	if p := lexPath(fa.X); p != "" {
 		return p + "." + name
 	}
+	// a local copy of a lexer struct cell (a value receiver spilled to a local): the copy stands for the cell
+	if al, isAlloc := fa.X.(*ssa.Alloc); isAlloc && al.Referrers() != nil {
+		src, n := "", 0
+		for _, ref := range *al.Referrers() {
+			if st, isSt := ref.(*ssa.Store); isSt && st.Addr == ssa.Value(al) {
+				n++
+				src = lexLoadPath(st.Val)
+			}
+		}
+		if n == 1 && src != "" {
+			return src + "." + name
+		}
+	}
 	return ""
 }
 
@@ -102,6 +115,9 @@ func (c *Ctx) lexAssigns(cell string) []lexAssign {
 						a.from = q + cell[len(p):]
 					} else {
 						a.val = localFieldValue(st.Val, strings.Split(cell[len(p)+1:], "."))
+						if a.val != nil {
+							a.from = lexLoadPath(a.val)
+						}
 					}
 					out = append(out, a)
 				}
@@ -473,6 +489,11 @@ func ruleTL4(c *Ctx) *rule {
 			if a.st.Parent() == newF {
 				continue
 			}
+			if a.val != nil {
+				if _, isConst := constInt(a.val); isConst {
+					continue // "nothing was read" at the end of the input
+				}
+			}
 			n++
 			if a.val == nil || !decoded(a.val) {
 				return false
@@ -663,6 +684,43 @@ func ruleLX3(c *Ctx) *rule {
 					}
 				} else if endTestCandidate(g.cond) {
 					other = condText(g.cond)
+				}
+			}
+			if !found && other == "" {
+				// a state of its own for the end of the input: every transition into it is guarded, and it emits before it reads
+				moved := false
+				for _, a := range c.lexAssigns(ro.pos) {
+					if a.st.Parent() == f && (a.st.Block() == site.Block() && before(a.st, site) || a.st.Block() != site.Block() && blockReaches(a.st.Block(), site.Block())) {
+						moved = true
+					}
+				}
+				into, guardedInto := 0, 0
+				for _, g := range fns {
+					if g == f {
+						continue
+					}
+					for _, ret := range returnsOf(g) {
+						leads := false
+						for _, o := range origins(ret.Results[0]) {
+							if funcConstOf(o) == f {
+								leads = true
+							}
+						}
+						if !leads {
+							continue
+						}
+						into++
+						for _, gd := range c.info(g).necessaryGuards(ret.Block()) {
+							if holds, ok := endOfInputTest(ro, gd.cond); ok && holds == gd.pol {
+								guardedInto++
+								break
+							}
+						}
+					}
+				}
+				if !moved && into > 0 && into == guardedInto {
+					r.ok(key, c.ipos(site), fmt.Sprintf("the state emits before it reads, and each of the %d transitions into it has the necessary guard pos >= len(input)", into))
+					continue
 				}
 			}
 			switch {
